@@ -25,9 +25,9 @@ type ctxFacts struct {
 	cloneLike map[*ssa.Function]bool // methods that return an updated clone of the receiver
 	lookups   map[*ssa.Function]bool // methods returning (T, bool) from a map lookup
 	clone     *ssa.Function
-	scopeQ    map[*ssa.Function]bool // scope-stack queries taking a scope argument
+	scopeQ    map[*ssa.Function]bool   // scope-stack queries taking a scope argument
 	scopeQK   map[*ssa.Function]string // queries for one kind of scope (inLoop()): the scope constant they stand for
-	globalQ   *ssa.Function          // "current scope is the program scope"
+	globalQ   *ssa.Function            // "current scope is the program scope"
 }
 
 func buildCtxFacts(w *World) (*ctxFacts, error) {
